@@ -3,6 +3,7 @@ module verif
 go 1.25.0
 
 require (
+	github.com/facebookgo/startstop v0.0.0-20161013234910-bc158412526d
 	github.com/honeycombio/refinery v0.0.0
 	github.com/jonboulle/clockwork v0.5.0
 	github.com/klauspost/compress v1.18.6
@@ -33,7 +34,6 @@ require (
 	github.com/facebookgo/inject v0.0.0-20180706035515-f23751cae28b // indirect
 	github.com/facebookgo/limitgroup v0.0.0-20150612190941-6abd8d71ec01 // indirect
 	github.com/facebookgo/muster v0.0.0-20150708232844-fd3d7953fd52 // indirect
-	github.com/facebookgo/startstop v0.0.0-20161013234910-bc158412526d // indirect
 	github.com/facebookgo/structtag v0.0.0-20150214074306-217e25fb9691 // indirect
 	github.com/felixge/httpsnoop v1.0.4 // indirect
 	github.com/go-logr/logr v1.4.3 // indirect
